@@ -287,9 +287,27 @@ def runOp (ds : DS) (env : Env) (j : Json) (o : ObsSt) : E (List Node × List (S
                     else if ch.isFork then "resync"
                     else if l.blocks.length > n.led.blocks.length then "extension" else "tipswap"
         | [] => "?"
+    -- C06 monitor: the property's clauses evaluated on the chain the IMPLEMENTATION holds after the round
+    let pre := n.led.blocks.map env.hash
+    let c06 : List String :=
+      if o.chain == pre then []
+      else
+        let hashesOf (bs : List Block) : List String := bs.map env.hash
+        let isCand := ch.cands.any (fun kv => hashesOf kv.2 == o.chain)
+        let maxL := Sync.maxLen n.led.blocks.length ch.cands
+        let minL := Sync.minLen n.led.blocks.length ch.cands
+        let maj := Sync.majorityFilter ch.cands minL
+        let inMaj := maj.any (fun kv => hashesOf kv.2 == o.chain)
+        let ageOf : Nat := ((ch.cands.find? (fun kv => hashesOf kv.2 == o.chain)).map (fun kv => Sync.age kv.2)).getD 0
+        let younger : Bool := ageOf < ch.maxAge
+        (if !isCand then [s!"C06 adopted-a-chain-that-is-not-a-verified-candidate impl={short o.chain} candidates={ch.cands.length}"] else []) ++
+        (if o.chain.length < pre.length then [s!"C06 adopted-a-shorter-chain impl={o.chain.length} before={pre.length}"] else []) ++
+        (if o.chain.length < maxL then [s!"C06 adopted-chain-shorter-than-the-longest-verified-candidate impl={o.chain.length} longest={maxL}"] else []) ++
+        (if isCand && !inMaj then [s!"C06 adopted-chain-on-a-branch-shared-by-fewer-than-half-of-the-candidates"] else []) ++
+        (if isCand && inMaj && younger then [s!"C06 adopted-chain-validator-waited-less impl={ageOf} max={ch.maxAge}"] else [])
     pure (outs.map (fun l => { n with led := l }),
           [("sync", mode), ("cands", toString ch.cands.length), ("survivors", toString ch.survivors.length),
-           ("outcomes", toString outs.length)])
+           ("outcomes", toString outs.length)] ++ c06.map (fun p => ("prop", p)))
   | "regsync" =>
     let invalid ← jstrList (jgetD j "invalid")
     let failing ← jstrList (jgetD j "failing")
@@ -354,9 +372,25 @@ def step (ds : DS) (j : Json) : E (DS × Out) := do
   let produced := op == "tick" && o.chain.length == (getNode ds name).led.blocks.length + 1
   let props := if ds.monitorsOn then monitors ds envLo (cfgOf ds name) o poolBefore produced else []
   let propsHi := if ds.monitorsOn then monitors ds envHi (cfgOf ds name) o poolBefore produced else []
-  let notes := ds.notes.map (fun s => "C15 " ++ s)
+  -- C12 monitors on the implementation's served chain: hash-linked at every moment; chained blocks keep their
+  -- content (hashes are recomputed from the served content after every operation); incremental adoption leaves
+  -- every block below the fork point untouched
+  let preChain := (getNode ds name).led.blocks.map envLo.hash
+  let syncMode := ((info.find? (fun kv => kv.1 == "sync")).map (·.2)).getD ""
+  let c12 : List String :=
+    (props.filter (fun p => p.startsWith "C04 prev-hash")).map (fun p => "C12 served-chain-not-hash-linked " ++ (p.drop 14).toString) ++
+    (if op != "sync" then
+       (if o.chain.take preChain.length != preChain then
+          [s!"C12 chained-block-altered-by-{op} impl={short o.chain} before={short preChain}"] else [])
+     else if syncMode != "resync" && o.chain.take (preChain.length - 1) != preChain.dropLast then
+       [s!"C12 incremental-adoption-altered-a-block-below-the-fork-point impl={short o.chain} before={short preChain}"]
+     else [])
+  let propsAll := if ds.monitorsOn then props ++ c12 else props
+  let notes := ds.notes.map (fun s => "C15 " ++ s) ++
+    (if ds.monitorsOn then (info.filter (fun kv => kv.1 == "prop")).map (·.2) else [])
+  let info := info.filter (fun kv => kv.1 != "prop")
   let ds := { ds with nodes := ds.nodes.insert name chosen, notes := [] }
-  pure (ds, { diffs := diffs, props := props ++ notes, miss := miss || props != propsHi, info := info })
+  pure (ds, { diffs := diffs, props := propsAll ++ notes, miss := miss || props != propsHi, info := info })
 
 def outJson (n : Nat) (o : Out) : String :=
   (Json.mkObj [("n", toJson n), ("diffs", toJson o.diffs), ("props", toJson o.props), ("miss", toJson o.miss),
